@@ -586,7 +586,7 @@ def check_case_static(ctx, batch, env, case, label):
 
 def part1(ctx, env):
     batch = Batch(ctx)
-    limit = ctx.scale(70, 800)
+    limit = ctx.scale(70, 500)
     for name, progs in template_programs():
         case = Case(env, progs)
         check_case_static(ctx, batch, env, case, name)
@@ -616,7 +616,7 @@ def part1(ctx, env):
     finally:
         env.del_mode = False
     # random programs, random schedules
-    n = ctx.scale(60, 400)
+    n = ctx.scale(60, 300)
     for i in range(n):
         progs = gen_programs(env, ctx.rng)
         case = Case(env, progs)
